@@ -1,4 +1,5 @@
 //# target src/vm/state.rs
+//# include ../common/watchdog.rs
 
     // C06 — perform_super / load_blocks / include / import are sequences of eval_impl steps over State (G-VM): no
     // function-level contract reaches them. BOUNDED stand-in executed natively against an independent reference
@@ -158,4 +159,79 @@
         assert!(again == "C(M(B))", "after a failed nested super() the block renders {again:?}");
         let third = cap.with_state_mut(|state| state.render_block("a")).unwrap();
         assert!(third == "C(M(B))");
+    }
+
+//# ob name=compose_targets_native role=native_bounded fn=vm::{perform_include,load_blocks} kind=bounded bound="include targets in 9 value forms {string literal, string variable, list literal, list variable, tuple, lazy concatenation, reversed list, host-provided lazy iterable, list filter result} x candidate lists {all missing, first / middle / last existing, two existing} x {ignore missing or not}; inheritance cycles of length 1..=3 with every choice of which members define blocks, entered from a member or from a child with / without blocks, plus acyclic block-less chains; a watchdog turns a render that does not return within 20 s into a failure" stmt="an include renders the first existing template of its candidate list whatever kind of sequence holds the names, and fails with template-not-found (or renders nothing under ignore missing) when none exists; every inheritance cycle is an error rather than a hang, whichever of its members define blocks"
+    fn compose_targets_native() {
+        with_watchdog("compose_targets_native", 20, |progress| {
+        use crate::{Environment, ErrorKind};
+        use crate::value::Value;
+        let mut env = Environment::new();
+        env.add_template("a", "A({{ v }})").unwrap();
+        env.add_template("b", "B({{ v }})").unwrap();
+        let cands: [(&[&str], Option<&str>); 6] = [
+            (&["nope1", "nope2"], None), (&["a", "nope"], Some("A(1)")), (&["nope", "a", "nope2"], Some("A(1)")), (&["nope", "nope2", "b"], Some("B(1)")),
+            (&["b", "a"], Some("B(1)")), (&["a"], Some("A(1)")),
+        ];
+        for (names, want) in cands {
+            let list: Vec<String> = names.iter().map(|s| s.to_string()).collect();
+            let lit = format!("[{}]", names.iter().map(|n| format!("'{n}'")).collect::<Vec<_>>().join(", "));
+            let rev: Vec<String> = list.iter().rev().cloned().collect();
+            let lazy_list = list.clone();
+            let forms: Vec<(String, Value)> = vec![
+                (lit.clone(), crate::context! { v => 1 }),
+                ("names".into(), crate::context! { v => 1, names => list.clone() }),
+                (format!("({},)", lit[1..lit.len() - 1].to_string()), crate::context! { v => 1 }),
+                ("[names[0]] + names[1:]".into(), crate::context! { v => 1, names => list.clone() }),
+                ("[] + names".into(), crate::context! { v => 1, names => list.clone() }),
+                ("rev|reverse".into(), crate::context! { v => 1, rev => rev.clone() }),
+                ("lazy".into(), crate::context! { v => 1, lazy => Value::make_iterable(move || lazy_list.clone().into_iter().map(Value::from)) }),
+                ("names|list".into(), crate::context! { v => 1, names => list.clone() }),
+                ("names|map('string')".into(), crate::context! { v => 1, names => list.clone() }),
+            ];
+            for (expr, ctx) in forms {
+                for ignore in [false, true] {
+                    let src = format!("<{{% include {expr}{} %}}>", if ignore { " ignore missing" } else { "" });
+                    progress(&src);
+                    let got = env.render_str(&src, ctx.clone());
+                    match (want, ignore) {
+                        (Some(w), _) => assert!(got.as_deref().ok() == Some(&format!("<{w}>")[..]), "{src} with {names:?}: {got:?}"),
+                        (None, true) => assert!(got.as_deref().ok() == Some("<>"), "{src} with {names:?}: {got:?}"),
+                        (None, false) => assert!(got.as_ref().err().map(|e| e.kind()) == Some(ErrorKind::TemplateNotFound), "{src} with {names:?} must report the missing template: {got:?}"),
+                    }
+                }
+            }
+            if names.len() == 1 {
+                for (expr, ctx) in [("'a'".to_string(), crate::context! { v => 1 }), ("n".to_string(), crate::context! { v => 1, n => "a" })] {
+                    let src = format!("<{{% include {expr} %}}>");
+                    progress(&src);
+                    assert!(env.render_str(&src, ctx).unwrap() == "<A(1)>");
+                }
+            }
+        }
+        // inheritance cycles: every choice of which members define blocks
+        for len in 1..=3usize { for mask in 0..(1u32 << len) { for entry in 0..3u8 {
+            let mut env = Environment::new();
+            for i in 0..len {
+                let parent = format!("c{}", (i + 1) % len);
+                let blocks = if mask & (1 << i) != 0 { format!("{{% block x %}}x{i}{{% endblock %}}") } else { String::new() };
+                env.add_template_owned(format!("c{i}"), format!("{{% extends '{parent}' %}}t{i}{blocks}")).unwrap();
+            }
+            env.add_template("child_blocks", "{% extends 'c0' %}{% block x %}child{% endblock %}").unwrap();
+            env.add_template("child_plain", "{% extends 'c0' %}text").unwrap();
+            let name = match entry { 0 => "c0", 1 => "child_blocks", _ => "child_plain" };
+            progress(&format!("inheritance cycle of length {len}, members with blocks mask {mask:#b}, entered from {name}"));
+            let got = env.get_template(name).unwrap().render(());
+            assert!(got.is_err(), "cycle of length {len} (blocks mask {mask:#b}) entered from {name} rendered {got:?} instead of failing");
+        }}}
+        // acyclic block-less chains still render
+        let mut env = Environment::new();
+        env.add_template("root", "R[{% block x %}rx{% endblock %}]").unwrap();
+        env.add_template("m1", "{% extends 'root' %}ignored").unwrap();
+        env.add_template("m2", "{% extends 'm1' %}").unwrap();
+        env.add_template("leaf", "{% extends 'm2' %}{% block x %}leaf{% endblock %}").unwrap();
+        progress("acyclic chains");
+        assert!(env.get_template("m2").unwrap().render(()).unwrap() == "R[rx]");
+        assert!(env.get_template("leaf").unwrap().render(()).unwrap() == "R[leaf]");
+        });
     }
